@@ -1,13 +1,23 @@
-(* C44: property statements -- only `exact` of proved lemmas and Print Assumptions *)
+(* C44: property statements -- conjunctions of the obligations of C44Statements.v, `exact` of proved lemmas,
+   Print Assumptions *)
 From Coq Require Import Reals List.
 From VLib Require Import RealExtra.
-From C44 Require Import C44Spec C44_gen C44Statements C44ProofsRot4.
+From C44 Require Import C44Spec C44_gen C44Statements C44ProofsOrth3 C44ProofsRot4.
 
-Theorem C44_cb4_3_index : cb4_3_index_ok.
-Proof. exact cb4_3_index_proof. Qed.
-Print Assumptions C44_cb4_3_index.
+Theorem C44_fourth_order_rotation_3D_and_block_offsets :
+  cb4_3_index_ok /\
+  gen_rotk_tri_index_ok /\
+  tg_rotk_pstrain_index_ok /\
+  tg_arrk_pstrain_index_ok.
+Proof.
+  exact (conj cb4_3_index_proof (conj gen_rotk_tri_index_proof (conj tg_rotk_pstrain_index_proof tg_arrk_pstrain_index_proof))).
+Qed.
+Print Assumptions C44_fourth_order_rotation_3D_and_block_offsets.
 
-Theorem C44_gen_rotk_tri_index : gen_rotk_tri_index_ok.
-Proof. exact gen_rotk_tri_index_proof. Qed.
-Print Assumptions C44_gen_rotk_tri_index.
+Theorem C44_emitted_rotations_round_trip :
+  gen_tri_round_trip_ok.
+Proof.
+  exact gen_tri_round_trip_proof.
+Qed.
+Print Assumptions C44_emitted_rotations_round_trip.
 
